@@ -149,7 +149,20 @@ def build(spec, log=None, lookup=None, hook=None):
         raise ValueError(lift["kind"])
     b.X = X
     b.n = n
-    b.x0 = list(spec["x0"]) if spec.get("x0_form", "list") == "list" else np.array(spec["x0"], float)
+    # the same data in the array-like forms a caller may use (the alternative forms fall back to the plain
+    # one when the data cannot be represented exactly in them)
+    xf_ = spec.get("x0_form", "list")
+    x0a = np.array(spec["x0"], float)
+    if xf_ == "list":
+        b.x0 = list(spec["x0"])
+    elif xf_ == "tuple":
+        b.x0 = tuple(float(v) for v in spec["x0"])
+    elif xf_ == "int" and np.all(np.isfinite(x0a)) and np.all(x0a == np.round(x0a)) and np.all(np.abs(x0a) < 2.0 ** 50):
+        b.x0 = x0a.astype(np.int64)
+    elif xf_ == "f32" and np.all(x0a.astype(np.float32).astype(float) == x0a):
+        b.x0 = x0a.astype(np.float32)
+    else:
+        b.x0 = x0a
     b.lb = np.array(spec["lb"], float)
     b.ub = np.array(spec["ub"], float)
     form = spec.get("bounds_form", "Bounds")
@@ -157,6 +170,14 @@ def build(spec, log=None, lookup=None, hook=None):
         b.bounds = None
     elif form == "array":
         b.bounds = np.column_stack([b.lb, b.ub])
+    elif form == "pairs":
+        b.bounds = [(float(l), float(u)) for l, u in zip(b.lb, b.ub)]
+    elif form == "lists":
+        b.bounds = [[float(l), float(u)] for l, u in zip(b.lb, b.ub)]
+    elif form == "Bounds_kf":
+        b.bounds = Bounds(b.lb.copy(), b.ub.copy(), keep_feasible=True)
+    elif form == "Bounds_list":
+        b.bounds = Bounds([float(l) for l in b.lb], [float(u) for u in b.ub])
     else:
         b.bounds = Bounds(b.lb.copy(), b.ub.copy())
 
@@ -203,8 +224,17 @@ def build(spec, log=None, lookup=None, hook=None):
     b.lin = []
     for L in spec.get("lin", []):
         A = np.array(L["A"], float).reshape(-1, n)
-        lc = LinearConstraint(A, np.array(L["lb"], float) if not L.get("lb_scalar") else float(L["lb"][0]),
-                              np.array(L["ub"], float) if not L.get("ub_scalar") else float(L["ub"][0]))
+        af_ = L.get("A_form", "float")
+        A_arg = A
+        if af_ == "list":
+            A_arg = [[float(v) for v in row] for row in A]
+        elif af_ == "int" and np.all(np.isfinite(A)) and np.all(A == np.round(A)):
+            A_arg = A.astype(np.int64)
+        elif af_ == "1d" and A.shape[0] == 1:
+            A_arg = A[0].copy()
+        as_l = (lambda v: [float(t) for t in v]) if L.get("limits_form") == "list" else (lambda v: np.array(v, float))
+        lc = LinearConstraint(A_arg, as_l(L["lb"]) if not L.get("lb_scalar") else float(L["lb"][0]),
+                              as_l(L["ub"]) if not L.get("ub_scalar") else float(L["ub"][0]))
         b.lin.append((A, np.array(L["lb"], float), np.array(L["ub"], float)))
         cons.append(("lin", L.get("pos", 0), lc))
     b.nl = []
